@@ -23,7 +23,7 @@ import (
 func init() {
 	Registry["C08"] = &Check{
 		Scenarios: c08Scenarios,
-		Rule: "Server.Serve on a scripted listener with two connections (both accepted, or one accepted and one attached with diam.NewConn); three requests per connection (re-auth, device-watchdog, capabilities-exchange, in that order) delivered as {one segment, one segment per message, split at the header/body border, first message in 10-byte pieces, first message one byte at a time}; instrumented handlers record enter/exit around a scheduling point and answer; variants: plain, and the first handler on connection A blocked for ever; one arrival pattern runs on a zero Server{} (DefaultServeMux, default dictionary); every schedule up to preemption bound 3 (thorough 6). The environment is eager (all fragments queued before the server starts; a Read never crosses a fragment boundary), because the arrival instant of a fragment is unobservable to a per-connection single-threaded reader; what is explored is every interleaving of the accept loop, the per-connection readers and the handlers.",
+		Rule: "Server.Serve on a scripted listener with two connections (both accepted, or one accepted and one attached with diam.NewConn); three requests per connection (re-auth, device-watchdog, capabilities-exchange, in that order) delivered as {one segment, one segment per message, split at the header/body border, first message in 10-byte pieces, first message one byte at a time}; instrumented handlers record enter/exit around a scheduling point and answer; variants: plain, and the first handler on connection A blocked for ever; in one arrival pattern the first handler of connection B requests CloseNotify (so the rest of B's messages pass through the reader switch); one arrival pattern runs on a zero Server{} (DefaultServeMux, default dictionary); every schedule up to preemption bound 3 (thorough 6). The environment is eager (all fragments queued before the server starts; a Read never crosses a fragment boundary), because the arrival instant of a fragment is unobservable to a per-connection single-threaded reader; what is explored is every interleaving of the accept loop, the per-connection readers and the handlers.",
 		Assume: []string{"data-race freedom between visible operations (audited separately with -race)"},
 		QuickBudget: 120, ThoroughBudget: 2400,
 	}
@@ -300,6 +300,9 @@ func c08Scenarios(tier string) []*Scenario {
 				}
 				if pt[0] == "each" && !attach {
 					o.defaultMux = true // this variant runs on Server{} with the package-level DefaultServeMux
+				}
+				if pt[0] == "one" && pt[1] == "each" {
+					o.notifyOn = "B" // B's first handler requests CloseNotify: the reader switches to the pipe between messages
 				}
 				if mode == "blockA" {
 					o.blockFirst = "A"
